@@ -52,6 +52,7 @@ type KnownFinding struct {
 }
 
 type oblResult struct {
+	Terms  map[string]string
 	Fn     string
 	O      Oblig
 	Res    SolveResult
@@ -162,6 +163,7 @@ func verifyFunctions(P *Program, funcs []PropFunc, solver *Solver, coverSolver *
 		fn    string
 		o     Oblig
 		query string
+		terms map[string]string
 	}
 	var jobs []job
 	for _, pf := range funcs {
@@ -185,6 +187,7 @@ func verifyFunctions(P *Program, funcs []PropFunc, solver *Solver, coverSolver *
 		for _, e := range v.specErrors {
 			genErrs = append(genErrs, pf.Key+": contract error: "+e)
 		}
+		rterms := v.replayVarTerms()
 		pre := v.Preamble()
 		for _, e := range v.specErrors[len(v.specErrors):] {
 			genErrs = append(genErrs, pf.Key+": contract error: "+e)
@@ -206,7 +209,7 @@ func verifyFunctions(P *Program, funcs []PropFunc, solver *Solver, coverSolver *
 			q := pre + body[:o.Offset]
 			if o.Cover {
 				q += fmt.Sprintf("(assert %s)\n", o.Guard)
-				jobs = append(jobs, job{pf.Key, o, q})
+				jobs = append(jobs, job{pf.Key, o, q, nil})
 				rep.Covers++
 				continue
 			}
@@ -214,7 +217,7 @@ func verifyFunctions(P *Program, funcs []PropFunc, solver *Solver, coverSolver *
 				continue
 			}
 			q += fmt.Sprintf("(assert (and %s (not %s)))\n", o.Guard, o.Cond)
-			jobs = append(jobs, job{pf.Key, o, q})
+			jobs = append(jobs, job{pf.Key, o, q, rterms})
 			rep.Obligations++
 			rep.ByKind[o.Kind]++
 			if o.Kind == "ensures" {
@@ -243,7 +246,7 @@ func verifyFunctions(P *Program, funcs []PropFunc, solver *Solver, coverSolver *
 				s = coverSolver
 			}
 			r := s.Prove(j.query, false)
-			res[i] = oblResult{Fn: j.fn, O: j.o, Res: r, Query: j.query}
+			res[i] = oblResult{Fn: j.fn, O: j.o, Res: r, Query: j.query, Terms: j.terms}
 		}(i, j)
 	}
 	wg.Wait()
@@ -430,7 +433,7 @@ func runCheck(id, tier string) int {
 	for _, d := range pc.DeadOK {
 		deadOK[d] = true
 	}
-	report := func(fn string, name string, text string, model string, o *Oblig, query string) {
+	report := func(fn string, name string, text string, terms map[string]string, o *Oblig, query string) {
 		// known finding?
 		for _, k := range known {
 			if k.Property == id && k.Status == "known" && k.Function == fn && strings.HasPrefix(name, k.Obligation) {
@@ -449,16 +452,16 @@ func runCheck(id, tier string) int {
 		fmt.Fprintf(&sb, "verifier output: %s\n", text)
 		suffix := " no-failing-input-found"
 		if o != nil && query != "" {
-			rr := tryReplay(P, id, fn, *o, query, model, solver, &sb)
-			if rr {
+			if ok, rf := tryReplay(P, id, fn, *o, query, terms, solver, &sb); ok {
 				suffix = ""
+				fmt.Fprintf(&sb, "REPRODUCED on the real code; runnable replay: %s\n", rf)
 			}
 		}
 		os.WriteFile(file, []byte(sb.String()), 0o644)
 		violationLines = append(violationLines, fmt.Sprintf("VIOLATION property=%s replay=%s%s", id, file, suffix))
 	}
 	for _, e := range genErrs {
-		report("(generator)", "generator: "+e, e, "", nil, "")
+		report("(generator)", "generator: "+e, e, nil, nil, "")
 	}
 	for i := range results {
 		r := &results[i]
@@ -477,13 +480,13 @@ func runCheck(id, tier string) int {
 			}
 			continue
 		}
-		report(r.Fn, r.O.Name, fmt.Sprintf("solvers answered %q within %s (z3 5.1.0, cvc5 1.0.3, z3 4.8.12 raced)", r.Res.Status, timeout), "", &r.O, r.Query)
+		report(r.Fn, r.O.Name, fmt.Sprintf("solvers answered %q within %s (z3 5.1.0, cvc5 1.0.3, z3 4.8.12 raced)", r.Res.Status, timeout), r.Terms, &r.O, r.Query)
 	}
 	vacuous := 0
 	for _, c := range covers {
 		if c.Res.Status == "unsat" && !deadOK[c.Fn+"|"+c.O.Name] {
 			vacuous++
-			report(c.Fn, c.O.Name, "cover query is unsat: this program point is unreachable under the contract's assumptions, so obligations behind it hold vacuously", "", &c.O, "")
+			report(c.Fn, c.O.Name, "cover query is unsat: this program point is unreachable under the contract's assumptions, so obligations behind it hold vacuously", nil, &c.O, "")
 		}
 	}
 	// bounded stand-ins (never counted as proved)
@@ -494,7 +497,7 @@ func runCheck(id, tier string) int {
 		}
 	}
 	if total == 0 && len(genErrs) == 0 {
-		report("(generator)", "generator: no obligations at all", "zero obligations", "", nil, "")
+		report("(generator)", "generator: no obligations at all", "zero obligations", nil, nil, "")
 	}
 	asm := append([]string{}, pc.Assumptions...)
 	asm = append(asm, sortedKeys(assumptions)...)
